@@ -380,10 +380,10 @@ def check_solve2d(case):
 
 
 SUBCHECKS = [
-    SubCheck("operator1d", check_op1d, strategy=strat_op1d, examples={"quick": 400, "thorough": 2500}, shards={"quick": 4, "thorough": 16}),
-    SubCheck("operator2d", check_op2d, strategy=strat_op2d, examples={"quick": 250, "thorough": 1500}, shards={"quick": 3, "thorough": 12}),
-    SubCheck("solve1d", check_solve1d, strategy=strat_solve1d, examples={"quick": 200, "thorough": 1200}, shards={"quick": 6, "thorough": 16}),
-    SubCheck("solve2d", check_solve2d, strategy=strat_solve2d, examples={"quick": 120, "thorough": 800}, shards={"quick": 3, "thorough": 12}),
+    SubCheck("operator1d", check_op1d, strategy=sim.with_units(strat_op1d), examples={"quick": 400, "thorough": 2500}, shards={"quick": 4, "thorough": 16}),
+    SubCheck("operator2d", check_op2d, strategy=sim.with_units(strat_op2d), examples={"quick": 250, "thorough": 1500}, shards={"quick": 3, "thorough": 12}),
+    SubCheck("solve1d", check_solve1d, strategy=sim.with_units(strat_solve1d), examples={"quick": 200, "thorough": 1200}, shards={"quick": 6, "thorough": 16}),
+    SubCheck("solve2d", check_solve2d, strategy=sim.with_units(strat_solve2d), examples={"quick": 120, "thorough": 800}, shards={"quick": 3, "thorough": 12}),
 ]
 
 META = dict(
